@@ -20,12 +20,18 @@ PROP = {'title': 'optional / either / variant combinators satisfy their algebrai
                'hierarchy via what()/dynamic_cast), to_exception throwing derived objects, variant<Base,Derived> in both orders; n-ary '
                '(n=3) applications use one injective recording function instead of all tables; quick tier: containers up to length 3, '
                'binary tables and the rich/poly match tables into a 2-element codomain, monad::do_ on either with 25 of the 125 first-step '
-               'tables',
+               "tables; result category (harness/C04_refs.cpp): the combinators whose declared result is the continuation's result "
+               '(variant::match/apply decltype(auto); optional::maybe/maybe_multi invoke_result_t<Default>; either::match '
+               'invoke_result_t<SuccessFunction,...>) are run with continuations returning T, T&, T const& and T&& for const&/&/&& '
+               'sources; to_exception, the get_unsafe family and optional::deref are checked as references into their source; combinators '
+               'that constrain their continuation with invocable_move (object result) or accept only void (maybe_void) cannot be given a '
+               'reference-returning continuation and are not part of this dimension',
  'binaries': [{'name': 'C04',
                'sources': ['harness/C04.cpp',
                            'harness/C04_either.cpp',
                            'harness/C04_variant.cpp',
                            'harness/C04_poly.cpp',
+                           'harness/C04_refs.cpp',
                            'harness/C04_rich_val.cpp',
                            'harness/C04_rich_heap.cpp',
                            'harness/C04_rich_move_only.cpp'],
@@ -46,7 +52,13 @@ PROP = {'title': 'optional / either / variant combinators satisfy their algebrai
          '{base, derived, derived2, std::exception, std::runtime_error, std::logic_error, user class} x 13 behaviours of the function (3 '
          'results, 7 thrown objects of the hierarchy, int, unrelated struct, std::runtime_error) x all 128 to_exception tables over the '
          'observed (dynamic class, payload), 5 std classes x 3 messages; variant<Base,Derived> over 9 values x all (base table, derived '
-         'table) pairs',
+         'table) pairs; refs shards: source category x result category {T, T&, T const&, T&&} x (variant::match over all table triples '
+         'into three external cells, variant::apply over all 3^7 (quick 2^7) unary visitor tables and the same tables for 49 value pairs, '
+         'optional::maybe over 4x3x27, optional::maybe_multi over all binary tables x 16 pairs, either::match over 5x9x27) plus '
+         'own-argument cases where the continuation returns (a reference to) the int inside the object it was handed; oracle: declared '
+         'result type == continuation result type, address identity with the object the continuation returned, write-through for non-const '
+         'references, zero copy/move operations on instrumented cells on reference paths; accessors: to_exception (optional/either), '
+         'get_unsafe/get_success_unsafe/get_failure_unsafe/variant get_unsafe<U>, optional::deref over pointer/unique_ptr/iterator',
  'assumptions': ['basic observers (has_value/get_unsafe, has_success/get_*_unsafe, type_index/get_unsafe<T>) are used to read results; '
                  'they are cross-checked against construction in the object shards',
                  'optional::combine with both arguments empty must be empty (the documentation names only the other three cases)',
@@ -58,7 +70,11 @@ PROP = {'title': 'optional / either / variant combinators satisfy their algebrai
                  'documented result to_exception(e) is about that very object: to_exception must observe its dynamic class and derived '
                  'payload; exceptions of unrelated types (and of base classes of Exception) propagate unchanged',
                  'try_call: copies of the exception object between throw and to_exception are counted (counter '
-                 'try_call:exception_object_copies) but not judged; a copy at the static type is judged through what to_exception then sees',
+                 'try_call:exception_object_copies) but not judged; a copy at the static type is judged through what to_exception then '
+                 'sees',
                  'rich payloads: combinations that cannot compile are not instantiated (by_value/forward continuations or source-returning '
                  'combinators on an lvalue move_only source; optional::filter always passes an lvalue to the predicate, so a move_only '
-                 'payload uses by_cref there); either::sequence and to_container with lvalue sources rely on the fixes b3e0bc8 / c55e90e']}
+                 'payload uses by_cref there); either::sequence and to_container with lvalue sources rely on the fixes b3e0bc8 / c55e90e',
+                 'result category: a mismatch of the declared result type is reported at run time (signature ...:result_type) instead of a '
+                 'static_assert so that a library change is a verdict, not a broken build; for by-value results only the value is compared '
+                 '(no copy counts)']}
